@@ -72,7 +72,7 @@ PROPS = {
                 quick=[R(checks=20000)],
                 thorough=[R(checks=200000, shards=16, timeout=1500)]),
     "C13": dict(pkg="c13", level="exploration",
-                quick=[R(checks=1200)],
+                quick=[R(checks=600, shards=2), R(checks=100, shards=4, env={"VERIF_C13_DEV": "1"})],
                 thorough=[R(checks=4000, shards=16, timeout=1800)]),
     "C14": dict(pkg="c14", level="exploration",
                 quick=[R(checks=4000)],
